@@ -487,3 +487,56 @@ func (d *driver) writeEvidence(violations int, knownHit []string, counts map[str
 	}
 	must(writeJSON(filepath.Join(d.evDir, d.prop+".json"), ev))
 }
+
+// c14Extra: the same case space again in the -race build (fewer cases, the
+// detector costs ~10x), then the real-thread stress.
+func c14Extra(d *driver) {
+	if d.raceBin == "" {
+		d.addInfra("C14: race binary missing")
+		return
+	}
+	raceCases := d.cases / 4
+	d.runPool(d.raceBin, d.prop, raceCases, "race")
+	d.extra["race_build_cases"] = raceCases
+	// stress
+	out := filepath.Join(d.scratch, "stress.json")
+	rounds := 12
+	if d.tier == "thorough" {
+		rounds = 120
+	}
+	cmd := exec.Command(d.raceBin, "-test.run=^TestStress$", "-test.timeout=0", "-test.count=1")
+	var stderr bytes.Buffer
+	cmd.Stderr = &stderr
+	cmd.Env = append(os.Environ(), "VERIF_ROLE=stress", fmt.Sprintf("VERIF_SEED=%d", d.seed), fmt.Sprintf("VERIF_STRESS_ROUNDS=%d", rounds), "VERIF_OUT="+out,
+		"GORACE=halt_on_error=1 exitcode=66", "GOTRACEBACK=all")
+	err := cmd.Run()
+	if err != nil {
+		code := -1
+		if ee, ok := err.(*exec.ExitError); ok {
+			code = ee.ExitCode()
+		}
+		class, disc := crashSignature(d.prop, stderr.String(), code)
+		if class == "race" {
+			d.mu.Lock()
+			d.failures = append(d.failures, Failure{Viol: Violation{Prop: d.prop, Sig: d.prop + " race (real-thread stress) " + disc,
+				Detail: map[string]any{"stderr_tail": tail(stderr.String(), 6000), "note": "found by the real-thread stress: reproduces with probability < 1"}}, Case: 1_000_000, Count: 1})
+			d.mu.Unlock()
+			d.extra["stress"] = "race reported"
+			return
+		}
+		d.addInfra(fmt.Sprintf("stress run failed (exit %d): %s", code, tail(stderr.String(), 3000)))
+		return
+	}
+	var res map[string]any
+	if b, e := os.ReadFile(out); e == nil {
+		json.Unmarshal(b, &res)
+	}
+	d.extra["stress"] = res
+	if res != nil {
+		if mm, ok := res["mismatches"].(float64); ok && mm > 0 {
+			d.mu.Lock()
+			d.failures = append(d.failures, Failure{Viol: Violation{Prop: d.prop, Sig: d.prop + " interference (real-thread stress) job result differs from its sequential result", Detail: res}, Case: 1_000_000, Count: int64(mm)})
+			d.mu.Unlock()
+		}
+	}
+}
